@@ -175,8 +175,13 @@ def run(ctx):
                 if isinstance(x, (ast.Assign,)) and isinstance(x.targets[0], ast.Name) and isinstance(x.value, ast.Attribute) and \
                         _field_elem_type(ir, x.value.attr) == cname:
                     typed.add(x.targets[0].id)
+            # a read that only decides an `if` whose body emits nothing is not a rendering of the field
+            hollow = set()
+            for n_ in own_nodes(f.node):
+                if isinstance(n_, ast.If) and all(isinstance(b_, ast.Pass) or (isinstance(b_, ast.Expr) and isinstance(b_.value, ast.Constant)) for b_ in n_.body) and not n_.orelse:
+                    hollow |= {id(y) for y in ast.walk(n_.test)}
             for x in own_nodes(f.node):
-                if isinstance(x, ast.Attribute) and isinstance(x.value, ast.Name) and x.value.id in typed:
+                if isinstance(x, ast.Attribute) and isinstance(x.value, ast.Name) and x.value.id in typed and id(x) not in hollow:
                     read.add(x.attr)
                 # trans.guard passed on: render_guard(trans.guard) -> handled via the callee's annotation
         for fld in fields:
